@@ -46,6 +46,11 @@ CHECKS = {
         technique="z3 path query per load over the recipe's own control-flow graph (exists a syntactic path from the routine entry to the load with no store of the variable, path length bound = number of nodes, complete) compared with the compiler's verdict and the load it names; SymAVM with uninitialised-slot tracking on accepted programs",
         text="For every enumerated placement of stores and loads of routine-local variables (automatically and explicitly numbered) in branches, Cond arms, zero-iteration loops, Break/Continue exits and early returns, in main and in subroutines: if z3 finds a syntactic path to a load along which the variable is never stored, the compiler must reject, and the load named by its error must be one with such a path (also accepting loads in code after Return/Break/Continue, which the compiler treats as reachable). For accepted programs SymAVM shows that no feasible path of the emitted TEAL reads a slot that was never written (within the loop bound); counterexamples are replayed concretely.",
         note="Trusted: the recipe CFG construction (verif/recipe/rcfg.py), z3. The syntactic-path side is complete for each enumerated program; the run-time side is bounded (K=2). Variables passed by reference or reached through DynamicScratchVar are excluded; rejections without an unwritten path are allowed (the compiler may be conservative) and only counted."),
+    "C18": dict(
+        category="translation_validation", design_ref="DESIGN.md 3/C18",
+        technique="translation validation, TEAL vs TEAL (SymAVM/z3 equivalence of the program with and without each annotation + instruction-stream comparison by the independent front-end) and z3 string/regex obligations over kernels translated from the current source (CommentExpr guard, TealLabel.assemble, label construction)",
+        text="(a) For base programs (control skeletons, routine programs) and each insertion of one annotation - Comment at every top-level statement or around the whole program, Assert comment, Pragma with a satisfied constraint, Nonce, subroutine names (also all routines sharing one name) - with adversarial texts plus texts taken from solver models, z3 shows behavioural equivalence for all inputs and the front-end shows the instruction streams are identical up to comment lines, label spellings and the Nonce push-and-pop. (b) With the text as a z3 string (length <= 8/12, any characters): a text accepted by CommentExpr's guard contributes exactly one comment line; everything TealLabel.assemble writes in front of a label is comment or blank lines whatever the subroutine name; labels of distinct routines are distinct and are label tokens. The kernels are re-translated from /repo's source on every run; unknown syntax is a harness error.",
+        note="Trusted: the line grammar model (comment = optional blanks, //, no line feed), the abstraction of str.splitlines (pieces contain no line break), z3 sequences/regex. Bounds: text length; the enumerated base programs and insertion points."),
 }
 
 NOT_APPLICABLE = {
